@@ -18,6 +18,7 @@ import (
 	"go/token"
 	"os"
 	"path/filepath"
+	"regexp"
 	"sort"
 	"strings"
 )
@@ -55,35 +56,70 @@ func flatten(stmts []ast.Stmt) (out []ast.Stmt) {
 	return
 }
 
-// mentions reports whether node n contains expression text `obj` as an identifier / selector expression.
-func mentions(fset *token.FileSet, n ast.Node, obj string) bool {
-	found := false
-	ast.Inspect(n, func(m ast.Node) bool {
-		if e, ok := m.(ast.Expr); ok {
-			switch e.(type) {
-			case *ast.Ident, *ast.SelectorExpr:
-				if src(fset, e) == obj {
-					found = true
-				}
-			}
-		}
-		return !found
-	})
-	return found
-}
-
-func isNilAssign(fset *token.FileSet, s ast.Stmt, lhs string) bool {
-	a, ok := s.(*ast.AssignStmt)
-	if !ok || len(a.Lhs) != 1 || len(a.Rhs) != 1 || a.Tok != token.ASSIGN {
-		return false
-	}
-	id, ok := a.Rhs[0].(*ast.Ident)
-	return ok && id.Name == "nil" && src(fset, a.Lhs[0]) == lhs
-}
-
 type closeFact struct {
 	name                         string
 	putLast, forgets, resetFirst bool
+}
+
+var putRe = regexp.MustCompile(`\.Put\((.+)\)\s*$`)
+
+func word(x string) *regexp.Regexp {
+	return regexp.MustCompile(`(^|[^A-Za-z0-9_.])` + regexp.QuoteMeta(x) + `($|[^A-Za-z0-9_])`)
+}
+
+// lines renders the flattened statements of a function body as text, inlining (one level, textually, parameters and
+// receiver replaced by the argument expressions) calls to functions / methods of the same package whose body
+// contains a pool Put — so that `release(z)` / `w.release()` helpers extracted from Close are seen through.
+func lines(fset *token.FileSet, body *ast.BlockStmt, decls map[string]*ast.FuncDecl, depth int) []string {
+	var out []string
+	for _, st := range flatten(body.List) {
+		var call *ast.CallExpr
+		if es, ok := st.(*ast.ExprStmt); ok {
+			call, _ = es.X.(*ast.CallExpr)
+		}
+		if call != nil && depth < 2 {
+			name, recvArg := "", ""
+			switch f := call.Fun.(type) {
+			case *ast.Ident:
+				name = f.Name
+			case *ast.SelectorExpr:
+				name, recvArg = f.Sel.Name, src(fset, f.X)
+			}
+			if d, ok := decls[name]; ok && d.Body != nil && name != "Put" {
+				inner := lines(fset, d.Body, decls, depth+1)
+				hasPut := false
+				for _, l := range inner {
+					if putRe.MatchString(l) {
+						hasPut = true
+					}
+				}
+				if hasPut {
+					subst := map[string]string{}
+					if d.Recv != nil && len(d.Recv.List[0].Names) > 0 && recvArg != "" {
+						subst[d.Recv.List[0].Names[0].Name] = recvArg
+					}
+					k := 0
+					for _, fld := range d.Type.Params.List {
+						for _, n := range fld.Names {
+							if k < len(call.Args) {
+								subst[n.Name] = src(fset, call.Args[k])
+							}
+							k++
+						}
+					}
+					for _, l := range inner {
+						for from, to := range subst {
+							l = regexp.MustCompile(`(^|[^A-Za-z0-9_.])`+regexp.QuoteMeta(from)+`\b`).ReplaceAllString(l, "${1}"+to)
+						}
+						out = append(out, l)
+					}
+					continue
+				}
+			}
+		}
+		out = append(out, strings.Join(strings.Fields(src(fset, st)), " "))
+	}
+	return out
 }
 
 func extractCloseOrder(repo, root string) error {
@@ -96,26 +132,27 @@ func extractCloseOrder(repo, root string) error {
 			return err
 		}
 		for _, p := range pkgs {
+			decls := map[string]*ast.FuncDecl{}
+			for _, f := range p.Files {
+				for _, d := range f.Decls {
+					if fd, ok := d.(*ast.FuncDecl); ok && fd.Name.Name != "Close" {
+						decls[fd.Name.Name] = fd
+					}
+				}
+			}
 			for _, f := range p.Files {
 				for _, d := range f.Decls {
 					fd, ok := d.(*ast.FuncDecl)
 					if !ok || fd.Name.Name != "Close" || fd.Recv == nil || fd.Body == nil {
 						continue
 					}
-					recvT := src(fset, fd.Recv.List[0].Type)
-					recvT = strings.TrimPrefix(recvT, "*")
-					stmts := flatten(fd.Body.List)
-					// the Put call and its argument
+					recvT := strings.TrimPrefix(src(fset, fd.Recv.List[0].Type), "*")
+					ls := lines(fset, fd.Body, decls, 0)
 					putIdx, obj := -1, ""
-					for i, s := range stmts {
-						ast.Inspect(s, func(n ast.Node) bool {
-							if c, ok := n.(*ast.CallExpr); ok {
-								if sel, ok := c.Fun.(*ast.SelectorExpr); ok && sel.Sel.Name == "Put" && len(c.Args) == 1 {
-									putIdx, obj = i, src(fset, c.Args[0])
-								}
-							}
-							return true
-						})
+					for i, l := range ls {
+						if m := putRe.FindStringSubmatch(l); m != nil {
+							putIdx, obj = i, m[1]
+						}
 					}
 					if putIdx < 0 {
 						continue // errorReader / errorWriter: no pool
@@ -123,34 +160,26 @@ func extractCloseOrder(repo, root string) error {
 					// the wrapper field the object came from: obj itself if it is a selector, else `obj := recv.field`
 					field := obj
 					if !strings.Contains(obj, ".") {
-						for _, s := range stmts {
-							if a, ok := s.(*ast.AssignStmt); ok && len(a.Lhs) == 1 && len(a.Rhs) == 1 && src(fset, a.Lhs[0]) == obj {
-								if _, ok := a.Rhs[0].(*ast.SelectorExpr); ok {
-									field = src(fset, a.Rhs[0])
-								}
+						re := regexp.MustCompile(`^` + regexp.QuoteMeta(obj) + ` :?= ([A-Za-z_][A-Za-z0-9_]*\.[A-Za-z0-9_.]+)$`)
+						for _, l := range ls {
+							if m := re.FindStringSubmatch(l); m != nil {
+								field = m[1]
 							}
 						}
 					}
 					fact := closeFact{name: pkg + "." + recvT + ".Close", putLast: true}
-					for i, s := range stmts {
-						if isNilAssign(fset, s, field) {
+					objRe, fieldRe := word(obj), word(field)
+					resetRe := regexp.MustCompile(`(^|[^A-Za-z0-9_.])(` + regexp.QuoteMeta(obj) + `|` + regexp.QuoteMeta(field) + `)\.Reset\(`)
+					for i, l := range ls {
+						if l == field+" = nil" {
 							fact.forgets = true
 							continue
 						}
-						if i > putIdx && (mentions(fset, s, obj) || mentions(fset, s, field)) {
+						if i > putIdx && (objRe.MatchString(l) || fieldRe.MatchString(l)) {
 							fact.putLast = false
 						}
-						if i < putIdx {
-							ast.Inspect(s, func(n ast.Node) bool {
-								if c, ok := n.(*ast.CallExpr); ok {
-									if sel, ok := c.Fun.(*ast.SelectorExpr); ok && sel.Sel.Name == "Reset" {
-										if x := src(fset, sel.X); x == obj || x == field {
-											fact.resetFirst = true
-										}
-									}
-								}
-								return true
-							})
+						if i < putIdx && resetRe.MatchString(l) {
+							fact.resetFirst = true
 						}
 					}
 					facts = append(facts, fact)
